@@ -9,7 +9,7 @@ package sender
 // message (with the Done callback that enqueues it) to exactly one plugin which accepted it.
 
 //@ func (*SenderWorker).Process
-//@ props C19
+//@ props C08 C19
 //@ nopanic C13
 //@ requires w != nil && w.aio != nil && w.metrics != nil && w.metrics.AioInFlight != nil && w.metrics.AioTotal != nil && w.plugins != nil && w.targets != nil
 //@ requires sqe != nil && sqe.Submission != nil && sqe.Submission.Sender != nil && sqe.Submission.Sender.Task != nil && sqe.Submission.Sender.Task.Mesg != nil
